@@ -138,14 +138,22 @@ def rule_nl(ctx, prop):
         if rep.anchor(le is not None, "context::line_ending_character", cfg):
             want = {"Unix": "\n", "Windows": "\r\n"}
             for v, s in want.items():
-                res = Enumerator(le, {"arg:1": v}).run()
+                res = run_with_argvals(le, {"arg:1": v}, r".")
                 got = set()
                 for st in res:
-                    for bi, c, t in st.calls:
-                        for a in t["args"]:
-                            for r in provenance(le, a, through=None):
-                                if r[0] == "const" and r[1].startswith("s:"):
-                                    got.add(r[1][2:])
+                    for hk, hv in st.hist:
+                        if not (isinstance(hk, str) and hk.startswith("argval:")):
+                            continue
+                        bi = int(hk[7:])
+                        t = le.blocks[bi]["term"]
+                        for a, av in zip(t["args"], hv):
+                            if av and av[0] in ("constx", "const") and isinstance(av[1], str) and av[1].startswith("s:"):
+                                got.add(av[1][2:])
+                            elif av is None and not is_const(a):
+                                # not a per-path constant: fall back to everything that can flow here
+                                for r in provenance(le, a, through=None):
+                                    if r[0] == "const" and r[1].startswith("s:"):
+                                        got.add(r[1][2:])
                 ok = got == {s}
                 rep.inst(f"{le.key} {v} -> {s!r}", {"variant": v, "string": sorted(got)}, cfg, ok=ok)
                 if not ok:
